@@ -32,6 +32,14 @@ var helperQueries = []string{
 	`nosuch = 1`,
 	`name = "x" $`,
 	``,
+	`createdAt > datetime(2020-01-01T00:00:00Z)`,
+	`createdAt > datetime(2021-02-03T04:05:06Z) and updatedAt < datetime(2031-01-01T00:00:00Z)`,
+	`updatedAt >= datetime(2022-03-04T05:06:07Z)`,
+	`createdAt < datetime(2023-04-05T06:07:08Z) sort by createdAt`,
+	`updatedAt between datetime(2019-01-01T00:00:00Z) and datetime(2029-01-01T00:00:00Z)`,
+	`anyOf(mentees.name) = "n1"`,
+	`dept.name = "dn1"`,
+	`anyOf(badges.id) = "b1"`,
 }
 
 var helperSymbols = []string{"name", "roles", "dept", "dept.name", "tags.tk1", "groups", "mentor.name", "nosuch", "badges", "id", "mentees.name", "isSystem"}
@@ -79,7 +87,16 @@ func renderIsErr(i int) string {
 	return fmt.Sprintf("ref=%v dup=%v notfound=%v", boltz.IsReferenceExistsError(e), boltz.IsUniqueIndexDuplicateError(e), boltz.IsErrNotFoundErr(e))
 }
 
-func (r *Run) evalHelper(op Op) string {
+func (r *Run) evalHelper(op Op) (res string) {
+	defer func() {
+		if p := recover(); p != nil {
+			switch p.(type) {
+			case abortSig, injectedPanic:
+				panic(p)
+			}
+			res = fmt.Sprintf("PANIC %v", p)
+		}
+	}()
 	switch op.K {
 	case "parse":
 		return renderParse(r.st.ByName(op.S), helperQueries[op.N%len(helperQueries)])
